@@ -284,6 +284,13 @@ func checkC13(c *Ctx) {
 	c.R.NotCovered = "'each matching subscriber exactly once' across nodes (needs matching semantics and run-time membership), will delay, retained wills."
 	defer c.ruleWillHandOff("C13-R7")
 	defer c.ruleRegisteredBeforeServed("C13-R8")
+	defer func() {
+		// R9: the peer-failure handler and its helpers keep no pointer to a loop variable (sessionsOf: out[i] = &session)
+		ru9 := c.R.Rule("C13-R9a", "anchors", "", 0)
+		if leave := c.implOf(ru9, "wasp", "NodeMemberManager", "NotifyGossipLeave"); leave != nil {
+			c.ruleLoopAliasOf("C13-R9", "a pointer to a lost session's record kept inside a loop of the peer-failure handler (every will published would be the last session's)", c.reachInPkg(leave, leave.Package()), 1)
+		}
+	}()
 	ru1 := c.R.Rule("C13-R1", "teardown: DISC ⇒ no will publication; ¬DISC ∧ WILL ∧ (¬FOUND ∨ MINE) ⇒ exactly one Process(ctx, session, nil, lwt) of the session's own will", "E1 decision table", 2)
 	td := c.teardown(ru1)
 	if td != nil {
@@ -462,6 +469,11 @@ func checkC13(c *Ctx) {
 				made, publish = at, elem
 			}
 			l := core.InnermostLoop(core.Loops(made.Parent()), made.Block())
+			var loopSite ssa.CallInstruction
+			if l == nil {
+				// the body of the loop over the lost sessions may be a helper (publishWill(session.MountPoint, session.LWT))
+				loopSite, l = c.callerLoop(made.Parent())
+			}
 			if l == nil {
 				bad = "the will is not appended once per lost session (no loop)"
 				continue
@@ -505,11 +517,77 @@ func checkC13(c *Ctx) {
 			if payload == nil || !readsField(payload, "SessionMetadatas", "LWT") {
 				bad = "the will payload is not carried over"
 			}
+			// the mount point and the will are those of one and the same record
+			type elemKey struct{ x, i ssa.Value } // the same element: same slice, same index value (lost[idx] written twice)
+			elemsOf := func(v ssa.Value) map[ssa.Value]bool {
+				out := map[ssa.Value]bool{}
+				depReaches(v, func(x ssa.Value) bool {
+					if ia, ok := x.(*ssa.IndexAddr); ok {
+						out[ia] = true
+					}
+					return false
+				})
+				return out
+			}
+			em, et := elemsOf(mp), elemsOf(tp)
+			common := false
+			keys := map[elemKey]bool{}
+			for x := range em {
+				ia := x.(*ssa.IndexAddr)
+				keys[elemKey{core.Strip(ia.X), ia.Index}] = true
+			}
+			for x := range et {
+				ia := x.(*ssa.IndexAddr)
+				if keys[elemKey{core.Strip(ia.X), ia.Index}] {
+					common = true
+				}
+			}
+			if (len(em) > 0 || len(et) > 0) && !common {
+				bad = "the mount point and the will do not come from the same session record (two different elements are read): a will is published under another session's mount point"
+			}
 			// guarded by LWT != nil
 			guarded := false
 			for _, cc := range controllingConds(made.Block(), nil) {
 				if readsField(cc.cond, "SessionMetadatas", "LWT") {
 					guarded = true
+				}
+			}
+			if !guarded && loopSite != nil {
+				// in the caller, around the call of the helper; or the loop ranges over records kept only when they have a will
+				for _, cc := range controllingConds(loopSite.Block(), nil) {
+					if readsField(cc.cond, "SessionMetadatas", "LWT") {
+						guarded = true
+					}
+				}
+			}
+			if !guarded {
+				for x := range et {
+					ia := x.(*ssa.IndexAddr)
+					src := core.Strip(ia.X)
+					if cv, isCall := src.(*ssa.Call); isCall {
+						if g := cv.Call.StaticCallee(); g != nil && len(g.Blocks) > 0 {
+							if rvs := returnValues(g); len(rvs) == 1 {
+								src = rvs[0]
+							}
+						}
+					}
+					if _, from, _, ok := sliceSources(src); ok && len(from) > 0 {
+						all := true
+						for _, ap := range from {
+							has := false
+							for _, cc := range controllingConds(ap.Block(), nil) {
+								if readsField(cc.cond, "SessionMetadatas", "LWT") {
+									has = true
+								}
+							}
+							if !has {
+								all = false
+							}
+						}
+						if all {
+							guarded = true
+						}
+					}
 				}
 			}
 			if !guarded {
